@@ -373,7 +373,7 @@ func DiffToks(want, got []NTok) (sig, desc string) {
 				if h.hasPrev {
 					at = "@" + repTok(h.prev)
 				}
-				return "moved:" + repToks(h.want, 4) + at, "SQL() moved [" + showToks(h.want) + "]" + ctx
+				return "moved:" + itoa(len(h.want)) + at, "SQL() moved [" + showToks(h.want) + "]" + ctx
 			}
 		}
 		return "missing:" + repToks(h.want, 4), "SQL() lost [" + showToks(h.want) + "]" + ctx
@@ -384,7 +384,7 @@ func DiffToks(want, got []NTok) (sig, desc string) {
 				if h.hasPrev {
 					at = "@" + repTok(h.prev)
 				}
-				return "moved:" + repToks(h.got, 4) + at, "SQL() moved [" + showToks(h.got) + "]" + ctx
+				return "moved:" + itoa(len(h.got)) + at, "SQL() moved [" + showToks(h.got) + "]" + ctx
 			}
 		}
 		return "extra:" + repToks(h.got, 4), "SQL() added [" + showToks(h.got) + "]" + ctx
